@@ -255,7 +255,7 @@ ParseClauses(pre, c, post, ret, r) ==
          <<"C15_PolicyRestored", r.policy_after = r.policy_before>>,
          <<"C15_FreshBehaviour", r.probe_same /\ (("parse2" \in DOMAIN r) => r.parse2 = r.parse)>>,
          <<"C15_NoHalfBuilt", (r.parse = "ok" /\ Len(ret) = 1) => (WF(post) /\ SelfContained(post, ret[1]))>>,
-         <<"C15_DanglingRejected", (c.kind \in {"dangle", "crosslib"}) => r.parse # "ok">>,
+         <<"C15_DanglingRejected", (c.kind \in {"dangle", "dangle_name", "crosslib"}) => r.parse # "ok">>,
          <<"C15_ValidAccepted", (c.kind = "none") => r.parse = "ok">> >>
     ELSE <<>>
 
